@@ -98,6 +98,35 @@ func main() {
 		pd["ptrsU"] = []*rowU{{"a", pd}}
 		pd["rowU"] = rowU{"a", pd}
 		pd["arr2U"] = [2][]rowU{nil, {{"a", pd}}}
+		// long arrays with one element whose conversion fails - by error or by a panic inside the conversion (a nil
+		// record, an element that contains itself): sizes around the thresholds a batched or parallel conversion
+		// would have
+		for _, n := range []int{100, 4095, 4096, 4097, 5000, 70000} {
+			rows := make([]interface{}, n)
+			strs := make([]interface{}, n)
+			nums := make([]interface{}, n)
+			for i := range rows {
+				rows[i] = map[string]interface{}{"name": fmt.Sprintf("r%d", i)}
+				strs[i] = fmt.Sprintf("s%d", i)
+				nums[i] = i
+			}
+			bad := n * 7 / 8
+			rows[bad] = nil
+			strs[bad] = pd
+			nums[bad] = "x"
+			pd[fmt.Sprintf("rows%d", n)] = rows
+			pd[fmt.Sprintf("strs%d", n)] = strs
+			pd[fmt.Sprintf("nums%d", n)] = nums
+			good := make([]interface{}, n)
+			for i := range good {
+				good[i] = fmt.Sprintf("g%d", i)
+			}
+			pd[fmt.Sprintf("good%d", n)] = good
+		}
+		pd["hs"] = func(xs []string) (interface{}, error) { return len(xs), nil }
+		pd["hm"] = func(xs []map[string]interface{}) (interface{}, error) { return len(xs), nil }
+		pd["hi"] = func(xs []int) (interface{}, error) { return len(xs), nil }
+		pd["hv"] = func(xs ...string) (interface{}, error) { return len(xs), nil }
 		rn.SetThis(pd)
 		var v interface{}
 		pan, _ := protect(func() { v, err = rn.Resolve(context.Background(), src.Expression) })
